@@ -3,6 +3,7 @@ package catalog
 import (
 	"encoding/json"
 	"strconv"
+	"sync"
 
 	jschemaLib "github.com/jsightapi/jsight-schema-go-library"
 	"github.com/jsightapi/jsight-schema-go-library/notations/jschema"
@@ -65,15 +66,31 @@ func unmarshalJSightSchema(s jschemaLib.Schema) (Schema, error) {
 		return Schema{}, err
 	}
 
-	example, err := s.Example()
+	example, err := schemaExample(s)
 	if err != nil {
 		return Schema{}, err
 	}
 
 	ret := NewSchema(notation.SchemaNotationJSight)
 	ret.ContentJSight = astNodeToJsightContent(n, ret.UsedUserTypes, ret.UsedUserEnums)
-	ret.Example = string(example)
+	ret.Example = example
 	return ret, nil
+}
+
+// exampleMu serializes calls of Schema.Example: the schema library builds the
+// example in pooled buffers and returns their memory after putting them back
+// to the pool, so a concurrent call can overwrite the result before it is copied.
+var exampleMu sync.Mutex
+
+func schemaExample(s jschemaLib.Schema) (string, error) {
+	exampleMu.Lock()
+	defer exampleMu.Unlock()
+
+	example, err := s.Example()
+	if err != nil {
+		return "", err
+	}
+	return string(example), nil
 }
 
 func astNodeToJsightContent(
